@@ -221,6 +221,11 @@ const NAMES: &[&str] = &["ro", "Theta", "a-b", "_x1", "m2"];
 fn pick(r: &mut impl Rng, xs: &[&'static str]) -> &'static str {
     xs[r.gen_range(0..xs.len())]
 }
+/// the first n of the given names, n random (0 ..= all): formal parameter lists of every length
+fn some_of(r: &mut impl Rng, xs: &[&str]) -> Value {
+    let n = r.gen_range(0..=xs.len());
+    json!(xs[..n].to_vec())
+}
 fn pick_perm(r: &mut impl Rng) -> Value {
     match r.gen_range(0..3) {
         0 => json!([0, 1]),
@@ -388,8 +393,10 @@ pub fn r_instr(r: &mut impl Rng, d: u32, api: bool, ph: bool, nested: bool) -> V
         }
         26 => json!({"k": "DefCalMeasure", "name": if r.gen_bool(0.3) { json!({"some": "fast"}) } else { none.clone() }, "qubit": r_qubit(r, ph),
                      "target": if r.gen_bool(0.5) { json!({"some": "addr"}) } else { none.clone() }, "body": body(r)}),
-        27 => json!({"k": "DefCircuit", "name": pick(r, &["BELL", "c-1"]), "params": if r.gen_bool(0.5) { json!(["a", "b"]) } else { json!([]) },
-                     "qubit_variables": if r.gen_bool(0.5) { json!(["q", "r"]) } else { json!([]) }, "body": body(r)}),
+        27 => {
+            json!({"k": "DefCircuit", "name": pick(r, &["BELL", "c-1"]), "params": (some_of(r, &["a", "b", "c"])),
+                   "qubit_variables": (some_of(r, &["q", "r", "s"])), "body": body(r)})
+        }
         28 => {
             let na = r.gen_range(1..=3);
             let attrs: Vec<Value> = ["DIRECTION", "INITIAL-FREQUENCY", "HARDWARE-OBJECT"][..na].iter().map(|k| json!({"key": k, "val":
@@ -400,14 +407,14 @@ pub fn r_instr(r: &mut impl Rng, d: u32, api: bool, ph: bool, nested: bool) -> V
             0 => {
                 let n = r.gen_range(1..=3);
                 json!({"k": "DefWaveform", "base": "wf", "ext": if r.gen_bool(0.3) { json!({"some": "sub"}) } else { none.clone() },
-                       "params": if r.gen_bool(0.5) { json!(["t"]) } else { json!([]) }, "matrix": (0..n).map(|_| r_expr(r, d, api)).collect::<Vec<_>>()})
+                       "params": (some_of(r, &["t", "u", "v"])), "matrix": (0..n).map(|_| r_expr(r, d, api)).collect::<Vec<_>>()})
             }
             1 => {
                 let n = r.gen_range(1..=2usize);
                 let rows: Vec<Value> = (0..n).map(|_| Value::Array((0..n).map(|_| r_expr(r, d, api)).collect())).collect();
-                json!({"k": "DefGate", "name": "G", "params": if r.gen_bool(0.5) { json!(["a"]) } else { json!([]) }, "spec": {"t": "matrix", "rows": rows}})
+                json!({"k": "DefGate", "name": "G", "params": (some_of(r, &["a", "b", "c"])), "spec": {"t": "matrix", "rows": rows}})
             }
-            2 => json!({"k": "DefGate", "name": "U", "params": [], "spec": {"t": "pauli", "args": ["p", "q"],
+            2 => json!({"k": "DefGate", "name": "U", "params": (some_of(r, &["a", "b"])), "spec": {"t": "pauli", "args": ["p", "q"],
                         "terms": [{"word": pick(r, &["XY", "ZZ", "IX"]), "e": r_expr(r, d, api), "args": ["p", "q"]},
                                   {"word": "Y", "e": r_expr(r, d, api), "args": ["q"]}]}}),
             _ => json!({"k": "DefGate", "name": "P", "params": [], "spec": {"t": "perm", "p": pick_perm(r)}}),
